@@ -855,3 +855,194 @@ impl Engine for CloneEngine {
         f("steps") + f("extra_a") + f("extra_b")
     }
 }
+
+// ------------------------------------------------------------------------------------------
+// C16: after drain()/clear() the queue must behave like a fresh one
+
+#[derive(Clone, Debug, Serialize, Deserialize)]
+pub struct FreshBody {
+    pub cfg: RunCfg,
+    pub steps: Vec<Step>,
+    /// index of the Drain / Clear step after which a fresh twin joins
+    pub at: usize,
+}
+
+pub fn run_fresh_case(b: &FreshBody) -> Result<Option<FailRec>, String> {
+    ledger_reset();
+    disarm_all();
+    let h = b.cfg.hasher;
+    let mut a = Inst::new(&b.cfg, b.cfg.ctor, h)?;
+    let at = b.at.min(b.steps.len().saturating_sub(1));
+    for (i, st) in b.steps.iter().enumerate().take(at + 1) {
+        match a.step(st, h) {
+            Err(p) => {
+                if i == at {
+                    return Ok(Some(frec("C16", "drain_panic", format!("{:?} panicked: {}", st, p), i)));
+                }
+                return Err(format!("prefix panicked: {}", p));
+            }
+            Ok(r) => {
+                if i == at {
+                    if let Some(f) = r.2.iter().find(|f| f.props & C16 != 0) {
+                        return Ok(Some(frec("C16", f.class, format!("after {:?}: {}", st, f.msg), i)));
+                    }
+                } else if r.2.iter().any(|f| f.props & (C03 | C04 | C12) != 0) {
+                    return Err("foreign divergence in the prefix".into());
+                }
+            }
+        }
+    }
+    if !matches!(b.steps.get(at), Some(Step::Drain { .. }) | Some(Step::Clear)) {
+        return Err("step `at` is neither drain nor clear".into());
+    }
+    // the emptied queue and a really fresh one, in lock-step
+    let mut f = Inst::new(&b.cfg, Ctor::WithHasher, h)?;
+    if f.q.kind() != a.q.kind() {
+        let old = std::mem::replace(&mut f.q, construct(a.q.kind(), Ctor::WithHasher));
+        drop(old);
+    }
+    f.n = a.n;
+    for (i, st) in b.steps.iter().enumerate().skip(at + 1) {
+        let rf = match f.step(st, h) {
+            Ok(r) => r,
+            Err(_) => return Err("the fresh twin panicked".into()),
+        };
+        if rf.2.iter().any(|x| x.props & (C03 | C04 | C12) != 0) {
+            return Err("foreign divergence in the fresh twin".into());
+        }
+        match a.step(st, h) {
+            Err(p) => return Ok(Some(frec("C16", "emptied_queue_differs_from_fresh", format!("step {} ({:?}) panicked on the queue that had been emptied by {:?} but not on a fresh queue: {}", i, st, b.steps[at], p), i))),
+            Ok(ra) => {
+                if ra.0 != rf.0 {
+                    return Ok(Some(frec("C16", "emptied_queue_differs_from_fresh", format!("step {} ({:?}) returned different values on the queue emptied by {:?} and on a fresh queue", i, st, b.steps[at]), i)));
+                }
+                if let Some(x) = ra.2.iter().find(|x| !rf.2.iter().any(|y| y.class == x.class)) {
+                    return Ok(Some(frec("C16", "emptied_queue_differs_from_fresh", format!("step {} ({:?}) on the queue emptied by {:?}: [{}] {} — the fresh queue passes", i, st, b.steps[at], x.class, x.msg), i)));
+                }
+            }
+        }
+    }
+    Ok(None)
+}
+
+pub struct FreshEngine {
+    pub quick_runs: u64,
+    pub thorough_runs: u64,
+}
+
+impl Engine for FreshEngine {
+    fn prop(&self) -> &'static str {
+        "C16"
+    }
+    fn info(&self) -> EngineInfo {
+        EngineInfo {
+            level: "exploration",
+            unit: "twin cases: a history with a drain (any consumption program, dropped or leaked) or clear at a seeded point; from there on a really fresh queue runs the remaining steps in lock-step and every return value is compared",
+            rule: "non-trivial = the drained queue held >= 2 elements and at least 3 steps follow the drain; distinct = digest of the case".into(),
+            real: REAL.to_vec(),
+            stubbed: STUBBED.to_vec(),
+            assumptions: vec!["'behaves like a fresh queue' is decided differentially against a fresh queue, so an unrelated defect cannot raise a C16 alarm".into(), "sampling, not proof".into()],
+            fault_kinds: vec!["guard abandonment (drop after an arbitrary prefix)", "guard leak (mem::forget of the drain guard)"],
+            exhaustive_note: None,
+        }
+    }
+    fn runs(&self, tier: Tier) -> u64 {
+        match tier {
+            Tier::Quick => self.quick_runs,
+            Tier::Thorough => self.thorough_runs,
+        }
+    }
+    fn run_one(&self, seed: u64, idx: u64, _tier: Tier, acc: &mut Acc) {
+        let mut rng = Rng::new(mix(seed, idx) ^ 0xC16);
+        let mut cfg = gen_cfg(&mut rng, C16, None);
+        cfg.len = cfg.len.min(60).max(6);
+        cfg.weights[Fam::IterMutLeak as usize] = 0;
+        let steps = match gen_history(rng, &cfg, C16) {
+            Some(s) => s,
+            None => {
+                acc.abandoned += 1;
+                acc.runs += 1;
+                return;
+            }
+        };
+        let ats: Vec<usize> = steps.iter().enumerate().filter(|(_, s)| matches!(s, Step::Drain { .. } | Step::Clear)).map(|(i, _)| i).collect();
+        if ats.is_empty() {
+            acc.runs += 1;
+            acc.bump("counters", "histories_without_drain_or_clear", 1);
+            return;
+        }
+        for at in ats.into_iter().take(3) {
+            acc.runs += 1;
+            let body = FreshBody { cfg: cfg.clone(), steps: steps.clone(), at };
+            let d = body_digest(&body);
+            acc.counters.insert("last_digest".into(), d);
+            if track_level() >= 2 {
+                track_line(2, &format!("B {}", serde_json::to_string(&body).unwrap()));
+            }
+            acc.steps += (2 * (steps.len() - at) + at) as u64;
+            match run_fresh_case(&body) {
+                Err(e) => {
+                    acc.abandoned += 1;
+                    if acc.abandoned_samples.len() < 3 {
+                        acc.abandoned_samples.push(format!("run {}: {}", idx, e));
+                    }
+                }
+                Ok(f) => {
+                    acc.bump("fams", body.steps[at].fam().name(), 1);
+                    if steps.len() - at > 3 {
+                        acc.nontrivial_runs += 1;
+                        acc.digests.push(d);
+                    }
+                    if acc.samples.len() < 2 && steps.len() <= 10 && steps.len() - at > 3 {
+                        acc.samples.push(json!({"run": idx, "steps": body.steps, "fresh_twin_joins_after_step": at, "outcome": "identical traces"}));
+                    }
+                    if let Some(f) = f {
+                        acc.violations.push(Case { property: "C16".into(), seed, run: idx, body: serde_json::to_value(&body).unwrap(), fail: Some(f), minimised: false, original_steps: 0 });
+                        return;
+                    }
+                }
+            }
+        }
+    }
+    fn replay(&self, body: &serde_json::Value) -> Result<Option<FailRec>, String> {
+        let b: FreshBody = serde_json::from_value(body.clone()).map_err(|e| e.to_string())?;
+        Ok(run_fresh_case(&b).unwrap_or(None))
+    }
+    fn shrink_candidates(&self, body: &serde_json::Value, fail: &FailRec) -> Vec<serde_json::Value> {
+        let b: FreshBody = match serde_json::from_value(body.clone()) {
+            Ok(b) => b,
+            Err(_) => return Vec::new(),
+        };
+        let mut out: Vec<FreshBody> = Vec::new();
+        if fail.step + 1 < b.steps.len() {
+            let mut c = b.clone();
+            c.steps.truncate(fail.step + 1);
+            out.push(c);
+        }
+        for i in 0..b.steps.len() {
+            if i == b.at {
+                continue;
+            }
+            let mut c = b.clone();
+            c.steps.remove(i);
+            if i < c.at {
+                c.at -= 1;
+            }
+            out.push(c);
+        }
+        for (i, st) in b.steps.iter().enumerate() {
+            for s2 in simplify_step(st) {
+                let mut c = b.clone();
+                c.steps[i] = s2;
+                out.push(c);
+            }
+        }
+        out.into_iter().map(|c| serde_json::to_value(&c).unwrap()).collect()
+    }
+    fn abort_is_violation(&self, _body: &serde_json::Value, class: &str) -> bool {
+        class.starts_with("abort_unsafe") || class.starts_with("abort_heap") || class.starts_with("abort_signal")
+    }
+    fn size_of(&self, body: &serde_json::Value) -> usize {
+        body.get("steps").and_then(|s| s.as_array()).map_or(0, |a| a.len())
+    }
+}
